@@ -94,7 +94,9 @@ func zzH_C18_recv() {
 	verifQuiesce()
 	timedOutPlain := false
 	for step := 0; step < verifBound("STEPS") && !done; step++ {
-		switch verifNondetRange(0, 3) {
+		switch verifNondetRange(0, 4) {
+		case 4: // a short time passes (a reader sitting out a pause wakes up; no time-out runs out)
+			verifAdvanceMs(150)
 		case 0: // the peer (paused itself) sends a keep-alive
 			t.addReceivedData([]byte("#SUCC:=\n"), false)
 		case 1: // the local user pauses, time passes, then resumes
